@@ -43,6 +43,7 @@ func checkC02(c *Ctx, r *Report) {
 	checkDMMacros(c, r)
 	checkDMX12EOD(c, r)
 	checkDMEdifactEOD(c, r)
+	checkDMEdifactDecode(c, r)
 	checkDMC40EOD(c, r)
 	checkDMCharset(c, r)
 	checkDMNativeChars(c, r)
@@ -1889,4 +1890,110 @@ func checkDMC40EOD(c *Ctx, r *Report) {
 	}
 	r.Extra("c40_eod_states", states)
 	reportFold(r, c, "S-DMC40EOD", key, fd.Pos(), bad)
+}
+
+// S-DMEDIDEC: where the EDIFACT segment parser stops
+func checkDMEdifactDecode(c *Ctx, r *Report) {
+	r.Rule("S-DMEDIDEC", "decodeEdifactSegment, folded over a model bit source: for an unlatch (011111) in each of the four positions of a group, after 0, 1 and 2 complete groups, the parser returns exactly the characters before the unlatch and leaves the source at the next codeword boundary - the rest of the codeword the unlatch ends in is skipped, and when the unlatch ends on a boundary (fourth position) nothing more is consumed, so the codeword that follows (ASCII data, a latch, or the first pad) is read by the ASCII parser; with 16 or fewer bits left the segment ends without reading", 1)
+	fd, p := c.funcDeclOf("datamatrix/decoder", "decodeEdifactSegment")
+	key := "datamatrix/decoder.decodeEdifactSegment"
+	if fd == nil {
+		r.AnchorLost("S-DMEDIDEC", key, "function not found")
+		return
+	}
+	r.Analysed(key)
+	bad := ""
+	folds := 0
+	for groups := 0; groups <= 2 && bad == ""; groups++ {
+		for pos := 0; pos < 4 && bad == ""; pos++ {
+			// values: complete groups of data, then pos data values, the unlatch, zero fill to the boundary, then three
+			// ASCII codewords
+			var vals []int64
+			var want []int64
+			for i := 0; i < groups*4+pos; i++ {
+				v := int64(1 + (i*7)%30) // 6-bit values 1..30: 'A'..
+				if i%3 == 2 {
+					v = 0x30 + int64(i%10) // a digit: values with the leading bit set stay as they are
+				}
+				vals = append(vals, v)
+				ch := v
+				if v&0x20 == 0 {
+					ch |= 0x40
+				}
+				want = append(want, ch)
+			}
+			vals = append(vals, 0x1F)
+			var bitsArr []bool
+			for _, v := range vals {
+				for b := 5; b >= 0; b-- {
+					bitsArr = append(bitsArr, v>>uint(b)&1 == 1)
+				}
+			}
+			for len(bitsArr)%8 != 0 {
+				bitsArr = append(bitsArr, false)
+			}
+			boundary := len(bitsArr)
+			for _, cw := range []int64{0x42, 0x43, 129} {
+				for b := 7; b >= 0; b-- {
+					bitsArr = append(bitsArr, cw>>uint(b)&1 == 1)
+				}
+			}
+			at := 0
+			h := &rpf{unroll: 64}
+			h.callHook = func(rr *rpf, call *ast.CallExpr, callee types.Object) (*Val, bool) {
+				switch {
+				case isMethodNamed(callee, "common", "BitSource", "Available"):
+					return vint(int64(len(bitsArr) - at)), true
+				case isMethodNamed(callee, "common", "BitSource", "GetBitOffset"):
+					return vint(int64(at % 8)), true
+				case isMethodNamed(callee, "common", "BitSource", "GetByteOffset"):
+					return vint(int64(at / 8)), true
+				case isMethodNamed(callee, "common", "BitSource", "ReadBits"):
+					// statement position: value and error dropped
+					n := rr.expr(call.Args[0])
+					if n.K != VInt || n.I < 1 || int(n.I) > len(bitsArr)-at {
+						rpfFail("ReadBits(%v) with %d bits left", n.I, len(bitsArr)-at)
+					}
+					at += int(n.I)
+					return &Val{K: VNil}, true
+				}
+				return nil, false
+			}
+			h.multiHook = func(call *ast.CallExpr, callee types.Object) ([]*Val, bool) {
+				if isMethodNamed(callee, "common", "BitSource", "ReadBits") {
+					n := rpfCurrent.expr(call.Args[0])
+					if n.K != VInt || n.I < 1 || int(n.I) > len(bitsArr)-at {
+						return []*Val{vint(0), vstr("error")}, true
+					}
+					v := int64(0)
+					for k := 0; k < int(n.I); k++ {
+						v <<= 1
+						if bitsArr[at+k] {
+							v |= 1
+						}
+					}
+					at += int(n.I)
+					return []*Val{vint(v), {K: VNil}}, true
+				}
+				return nil, false
+			}
+			res, err := c.rpfCall(fd, p, []*Val{{K: VStruct, Ptr: true, Fields: map[string]*Val{}}, {K: VList, Local: true}}, h)
+			folds++
+			what := fmt.Sprintf("%d EDIFACT characters, then the unlatch in position %d of its group, then codewords 66 67 129", len(want), pos+1)
+			if err != nil {
+				bad = "?" + what + ": " + err.Error()
+				break
+			}
+			got, ok := listInts(res[0])
+			if len(res) != 1 || !ok || fmt.Sprint(got) != fmt.Sprint(want) {
+				bad = fmt.Sprintf("%s: the segment yields %q, expected %q", what, bytesOf(got), bytesOf(want))
+				break
+			}
+			if at != boundary {
+				bad = fmt.Sprintf("%s: the parser stops at bit %d of the stream; the next codeword starts at bit %d (%s)", what, at, boundary, map[bool]string{true: "codewords that belong to the ASCII parser are swallowed", false: "the fill bits of the unlatch's codeword are left for the ASCII parser"}[at > boundary])
+			}
+		}
+	}
+	r.Extra("S-DMEDIDEC folds", folds)
+	reportFold(r, c, "S-DMEDIDEC", key, fd.Pos(), bad)
 }
